@@ -37,10 +37,14 @@ def scenarios(n, kind):
         out += [Scenario({0}, False, True, n), Scenario({n - 1}, True, True, n), Scenario({0}, True, False, n)]
     if n >= 2:
         out += [Scenario((), False, True, n, scalar_at=0), Scenario((), True, True, n, scalar_at=n - 1)]
+    # an operand that stores no blade goes through the same look-up and the same generated function (what the code
+    # generator raises for it - ZeroDivisionError in a degenerate algebra - must not be replaced by a silent result)
+    out += [Scenario((), False, True, n, empty_at=0), Scenario((), True, True, n, empty_at=n - 1)]
     return out
 
 
-@rule("C02.call-pairing", props=["C02", "C08", "C10", "C12", "C13"], min_instances=22, mutants=[
+@rule("C02.call-pairing", props=["C02", "C08", "C10", "C12", "C13", "C05", "C07"], min_instances=30, mutants=[
+    ("a unary operator returns an operand without blades as it is", ("operator_dict", "    def __call__(self, mv):\n        keys_out, func = self[mv.keys()]", "    def __call__(self, mv):\n        if not mv.keys():\n            return mv\n        keys_out, func = self[mv.keys()]")),
     ("binary lookup with swapped key tuples", ("operator_dict", "        keys_out, func = self[mv1.keys(), mv2.keys()]", "        keys_out, func = self[mv2.keys(), mv1.keys()]")),
     ("unary wrapper path calls the unwrapped function of another name", ("operator_dict", "            values_out = self.algebra.numspace[func.__name__](mv.values())", "            values_out = self.algebra.numspace['OTHER'](mv.values())")),
     ("n-ary call passes reversed values", ("operator_dict", "        values_in = tuple(mv.values() for mv in mvs)\n        keys_out, func = self[keys_in]\n        issymbolic", "        values_in = tuple(mv.values() for mv in reversed(mvs))\n        keys_out, func = self[keys_in]\n        issymbolic")),
